@@ -35,7 +35,7 @@ pub struct Scn {
 pub struct C01;
 
 pub const N_CFG: usize = 10;
-const N_SHAPES: usize = 25;
+const N_SHAPES: usize = 27;
 const QNAMES: &[&str] = &[
     "www.example.", "example.", "WwW.ExAmPlE.", "nosuch.example.", "x.wild.example.", "alias.example.", "chain1.example.", "deep.sub.example.", "big.example.",
     "glue.test.", "deleg.glue.test.", "x.deleg.glue.test.", "y.glue.test.", "badns.example.", "badmx.example.", "badcname.example.", "badsrv.example.", "bada.example.", "badsoa.test.", "x.nosoa.test.", "nosoa.test.", "unloaded.test.", "failed.test.", "www.elsewhere.", ".",
@@ -190,7 +190,24 @@ pub fn base_message(i: usize) -> Vec<u8> {
             let (n, t) = [("ptrs.example.", 12u16), ("nss.example.", wire::T_NS), ("ptrs.example.", wire::T_ANY), ("mxs.example.", wire::T_MX)][v % 4];
             wire::query_full(id, &wire::name(n), t, wire::C_IN, 0, if v % 2 == 0 { Some(4096) } else { None })
         }
+        // requests signed with the odd keys of the key set (root-named key with an empty secret,
+        // 1-octet and 200-octet secrets, both algorithms): valid signatures (25) and extreme
+        // time fields - 2^48-1 with fudge 65535, 0 with fudge 65535 - (26)
+        25 | 26 => {
+            let (kname, alg, sec) = odd_key(v % 3);
+            let (time, fudge) = if shape == 25 { (now, 300u16) } else if v % 2 == 0 { ((1u64 << 48) - 1, 65535) } else { (0, 65535) };
+            let q = wire::query_full(id, &qn, qt, wire::C_IN, 0, if v % 2 == 0 { None } else { Some(1232) });
+            tsigref::sign_request(&q, &SignSpec { key_name: wire::name(kname), alg, alg_name: alg.name(), secret: sec, time, fudge, mac_len: if v % 4 == 3 { Some(10) } else { None } }).0
+        }
         _ => wire::query_full(id, &qn, 250 + (v % 6) as u16, wire::C_IN, 0x0200, None),
+    }
+}
+/// The odd members of the key set: (name, algorithm, secret).
+fn odd_key(i: usize) -> (&'static str, Alg, Vec<u8>) {
+    match i {
+        0 => (".", Alg::Sha1, vec![]),
+        1 => ("one.example.", Alg::Sha256, vec![0x5a]),
+        _ => ("long-secret.example.", Alg::Sha1, (0..200u8).collect()),
     }
 }
 
@@ -200,6 +217,10 @@ fn keys() -> Arc<TsigKeyMap> {
     let ln = long_name(1);
     let text: String = ln.iter().map(|l| format!("{}.", String::from_utf8_lossy(l))).collect();
     m.insert(qz::qname(&text), (Algorithm::HmacSha256, secret().into_boxed_slice()));
+    for i in 0..3 {
+        let (name, alg, sec) = odd_key(i);
+        m.insert(qz::qname(name), (if matches!(alg, Alg::Sha1) { Algorithm::HmacSha1 } else { Algorithm::HmacSha256 }, sec.into_boxed_slice()));
+    }
     Arc::new(m)
 }
 
@@ -532,8 +553,8 @@ impl Prop for C01 {
     type Scn = Scn;
     fn runs(tier: Tier) -> u64 {
         (match tier {
-            Tier::Quick => 200,
-            Tier::Thorough => 1000,
+            Tier::Quick => 216,
+            Tier::Thorough => 1080,
         }) * N_CFG as u64
     }
     fn gen(r: &mut SplitMix, tier: Tier, idx: u64) -> Scn {
@@ -585,7 +606,7 @@ impl Prop for C01 {
         format!("{file}|{masked}")
     }
     fn rule() -> String {
-        format!("one execution = one (request shape, server configuration) pair: {} shapes quick / 1000 thorough (plain, EDNS with options and odd versions, big RRsets with swept payload sizes, TSIG-signed with known/unknown keys, truncated MACs and maximal 255-octet key/algorithm names, extra records in every section, compressed and mixed-case names, opcodes 0-15, QTYPE ANY/AXFR/IXFR/meta, QCLASS ANY/CH, NOTIFY/UPDATE-shaped, two questions, misplaced OPT/TSIG, header only, answers of more than 16 KiB made of name-bearing records, question-less requests with OPT (odd versions) or TSIG) x {} configurations (empty catalog; loaded/NotYetLoaded/FailedToLoad entries; zones with malformed stored RDATA in classes IN and CH, missing or malformed SOA; two configurations whose zones are drawn from a seed per request shape: every owner the corpus asks about holds 0-3 RRsets of assorted types with valid, cut, empty, random, pointer-bearing or over-long RDATA; key sets; RRL slip 0/1/2 with rate x window from 1 to 2^32-1, prefix lengths 0, default and 32/64, a one-entry table, simulated time passing between requests (0, seconds, a minute, a day, 400 days); sources IPv4, IPv6, IPv4-mapped, all-ones and unspecified; payload 512/1232/65535); per pair, exhaustively: truncation to every length, at every offset substitution by 10 values, each header count set to 0/+1/0xffff, every RR's RDLENGTH set to 0..80, the advertised EDNS payload size set to every value 0..1400 (+ large ones), junk of 1/2/11/300 octets appended, tail duplicated, both transports; then seeded random pairs of those faults. Every pair is non-trivial and distinct by construction", 200, N_CFG)
+        format!("one execution = one (request shape, server configuration) pair: {} shapes quick / 1080 thorough (plain, EDNS with options and odd versions, big RRsets with swept payload sizes, TSIG-signed with known/unknown keys, truncated MACs and maximal 255-octet key/algorithm names, keys with a root name / empty, 1-octet and 200-octet secrets, time signed 0 and 2^48-1 with fudge 65535, extra records in every section, compressed and mixed-case names, opcodes 0-15, QTYPE ANY/AXFR/IXFR/meta, QCLASS ANY/CH, NOTIFY/UPDATE-shaped, two questions, misplaced OPT/TSIG, header only, answers of more than 16 KiB made of name-bearing records, question-less requests with OPT (odd versions) or TSIG) x {} configurations (empty catalog; loaded/NotYetLoaded/FailedToLoad entries; zones with malformed stored RDATA in classes IN and CH, missing or malformed SOA; two configurations whose zones are drawn from a seed per request shape: every owner the corpus asks about holds 0-3 RRsets of assorted types with valid, cut, empty, random, pointer-bearing or over-long RDATA; key sets (two algorithms, secrets of 0 to 200 octets, root-named key); RRL slip 0/1/2 with rate x window from 1 to 2^32-1, prefix lengths 0, default and 32/64, a one-entry table, simulated time passing between requests (0, seconds, a minute, a day, 400 days); sources IPv4, IPv6, IPv4-mapped, all-ones and unspecified; payload 512/1232/65535); per pair, exhaustively: truncation to every length, at every offset substitution by 10 values, each header count set to 0/+1/0xffff, every RR's RDLENGTH set to 0..80, the advertised EDNS payload size set to every value 0..1400 (+ large ones), junk of 1/2/11/300 octets appended, tail duplicated, both transports; then seeded random pairs of those faults. Every pair is non-trivial and distinct by construction", 216, N_CFG)
     }
     fn assumptions() -> Vec<String> {
         vec![
